@@ -5,6 +5,7 @@ import (
 	"fmt"
 	"math/rand"
 	"os"
+	"time"
 )
 
 func main() {
@@ -49,22 +50,27 @@ func main() {
 	switch cmd {
 	case "life":
 		tr := NewTracer(*out)
+		startWatchdog(tr, 120*time.Second, 6<<30)
 		l := NewLife(tr, r, *dir)
 		runLifeProfile(l, *profile, *n, *steps)
 		tr.Close()
 		fmt.Printf("events=%d\n", tr.N)
+	case "dictiter":
+		runDictIter(*in, *tables, *dir, *out)
 	case "dvvisit":
 		runDvVisit(*in, *tables, *dir, *out, *quick)
 	case "postiter":
 		runPostIter(*in, *tables, *batches, *dir, *out, *quick, *seed)
 	case "life-rerun":
 		tr := NewTracer(*out)
+		startWatchdog(tr, 120*time.Second, 6<<30)
 		l := NewLife(tr, r, *dir)
 		l.Rerun(*in)
 		tr.Close()
 		fmt.Printf("events=%d\n", tr.N)
 	case "life-replay":
 		tr := NewTracer(*out)
+		startWatchdog(tr, 120*time.Second, 6<<30)
 		l := NewLife(tr, r, *dir)
 		nw := l.ReplayWalks(*in, loadCatalog(*catalog))
 		tr.Close()
